@@ -26,8 +26,30 @@ otherwise"):
 
 The printer theorems below hold for **every** emission sequence.  `line_map_correct` assumes the
 sequence is *well marked* (`wellMarked`), which is what codegen's `start_source` calls are meant to
-guarantee; `Printer/Codegen.lean` models the call sites as they are, and the `…_counterexample`
-theorems show where they do not (recorded findings).
+guarantee; `Printer/Codegen.lean` models the call sites as they are, and the `…_counterexample` theorems
+show where they do not.
+
+**OPEN** (false of /repo as it is; recorded in `known_findings.json`, each with an oracle witness):
+
+* F9a – `render_body` of a template without `<%page>` is opened with `start_source(0)`: observable lines of
+  its header / preamble (def stubs, strict-undefined `raise NameError`, namespace fetches, a `<%block>` call
+  site before the first node) are reported as template line 0 (`body_line_zero_counterexample`,
+  `line_zero_counterexample`);
+* F9b – emission sites that still write observable lines without a `start_source` of their own: the def
+  stub `def f(): return render_f()` (`stub_counterexample`; also shows a warning of a top-level def's
+  argument default twice / at the wrong line), the `<%block>` call site (`block_call_counterexample`),
+  declaration lines that follow an inline def (`preamble_after_inline_def_counterexample`);
+  hence no unconditional `codegen_line_map_correct`, only `codegen_line_map_partial`;
+* outside the model, oracle only: F9c (a parse-time warning in python that the generator re-emits through
+  `ast` – argument lists, filter lists – is dropped and never raised again), F13 (filter action `error`:
+  compile-stage and module-body warnings surface as bare exceptions located in the generated module), F5
+  (two live templates with one module id share the `ModuleInfo` entry), F9e (a module file of another magic
+  number is compiled and executed once before it is regenerated: its warnings show twice).
+
+Closed by repairs of /repo and proved in full here: the `.lineno` search includes the first record
+(`lineno_from_innermost_template_record`), the per-file cache keeps the template source
+(`record_source_is_own_template`), the `<%call>` / inline def / epilogue / cache / inherit / `<%text>` /
+decorator lines are written under their own mark (part of `codegen_marked_partial`).
 -/
 namespace MakoModel.C12
 open MakoModel.Basic MakoModel.Printer
@@ -416,7 +438,7 @@ example : Tb.recordSources true [("A".toList, ⟨[1], [], "a.html".toList, "src 
 
 /-- regression form – the behaviour BEFORE bcd673d (`keeps := false`, not /repo's code any more): with a
     cache that does not keep the source the statement holds only while one template module occurs … -/
-theorem record_source_prefix_behaviour_single_template (reg : Tb.Registry) (fs : List Tb.Frame)
+theorem record_source_single_template_regression (reg : Tb.Registry) (fs : List Tb.Frame)
     (hone : ∀ f ∈ fs, ∀ g ∈ fs, reg.lookup f.filename ≠ none → reg.lookup g.filename ≠ none →
       f.filename = g.filename) :
     Tb.recordSources false reg fs = fs.map fun f => (reg.lookup f.filename).map (·.source) :=
@@ -428,7 +450,7 @@ example : Tb.recordSources false [("A".toList, ⟨[1], [], "a.html".toList, "src
 
 /-- … and (pre-fix behaviour, `keeps := false`) alternating templates A, B, A gave the second A record B's
     source – what a revert of bcd673d brings back -/
-theorem prefix_behaviour_alternating_templates :
+theorem alternating_templates_source_regression :
     Tb.recordSources false [("A".toList, ⟨[1], [], "a.html".toList, "src A".toList⟩),
                       ("B".toList, ⟨[1], [], "b.html".toList, "src B".toList⟩)]
       [⟨"A".toList, 1, [], []⟩, ⟨"B".toList, 1, [], []⟩, ⟨"A".toList, 1, [], []⟩]
@@ -452,10 +474,10 @@ theorem lineno_from_innermost_template_record (pre post : List Tb.Record) (r : T
     Tb.pickLine (pre ++ r :: post) = some (fn, ln) :=
   Tb.pickLine_innermost pre post r fn ln hr hpost
 
-/-- … and the fall-back ("a normal .py file") is taken only when no record names a template line -/
-theorem lineno_fallback_iff_no_template_line (rs : List Tb.Record) (h : ∀ q ∈ rs, q.hit = none) :
-    Tb.pickLine rs = none :=
-  Tb.pickLine_none rs h
+/-- … and the fall-back ("a normal .py file") is taken exactly when no record names a template line -/
+theorem lineno_fallback_iff_no_template_line (rs : List Tb.Record) :
+    Tb.pickLine rs = none ↔ ∀ q ∈ rs, q.hit = none :=
+  Tb.pickLine_none_iff rs
 
 example : Tb.pickLine [⟨⟨"m".toList, 21, [], []⟩, some ("t".toList, 4, some "x = 1/0".toList)⟩]
     = some ("t".toList, 4) := by decide
